@@ -5,6 +5,7 @@ import Heathcliff.Proofs.GenRns5
 import Heathcliff.Proofs.GenRns8
 import Heathcliff.Proofs.GenRns11
 import Heathcliff.Proofs.GenRns14
+import Heathcliff.Proofs.GenRns16
 
 /- Property theorems only (statements verbatim; proofs are the helper lemmas of Heathcliff/Proofs). -/
 namespace HC.C10
@@ -217,5 +218,20 @@ theorem gen_multiply_scalar_p_components : type_of% @HC.gr_msp_list := @HC.gr_ms
 theorem gen_fastbconv_m_tilde_eq : type_of% @HC.gr_fastbconv_m_tilde_eq := @HC.gr_fastbconv_m_tilde_eq
 /-- END TO END: all `|Bsk| + 1` outputs of the generated `fastbconv_m_tilde` are residues of ONE integer `[m̃·X_j]_Q + α_j·Q`, `α_j < |q|` -/
 theorem gen_fastbconv_m_tilde_crt : type_of% @HC.gr_fastbconv_m_tilde_crt := @HC.gr_fastbconv_m_tilde_crt
+
+/-! ### translator tie, phase 4k: `RNSBase::decompose`, `decompose_array` (Proofs/GenRns15.lean, GenRns16.lean) -/
+
+/-- `RNSBase::decompose` generated from the source = `RNSBase.decompose` on the value of the limbs (non-empty base: for the empty base, which
+    `RNSBase::new` refuses, the code returns the empty buffer and the model `#[v]`) -/
+theorem gen_rnsbase_decompose_eq : type_of% @HC.gr_rnsbase_decompose_eq := @HC.gr_rnsbase_decompose_eq
+/-- a value buffer whose length differs from the base's is refused (`assert_eq!`) -/
+theorem gen_rnsbase_decompose_refuses : type_of% @HC.gr_rnsbase_decompose_refuses := @HC.gr_rnsbase_decompose_refuses
+/-- END TO END with `decompose_spec_of`: the generated `decompose` returns the residues `x mod q_i` -/
+theorem gen_rnsbase_decompose_residues : type_of% @HC.gr_rnsbase_decompose_residues := @HC.gr_rnsbase_decompose_residues
+/-- `RNSBase::decompose_array` generated from the source (`iter().enumerate()`, `chunks(size).enumerate()` read as index loops): component `i` of the
+    result = `modulo_uint(value_j, q_i)`, `j < count` -/
+theorem gen_rnsbase_decompose_array_eq : type_of% @HC.gr_rnsbase_decompose_array_eq := @HC.gr_rnsbase_decompose_array_eq
+/-- END TO END: position `i·count + j` = `value_j mod q_i` -/
+theorem gen_rnsbase_decompose_array_residues : type_of% @HC.gr_rnsbase_decompose_array_residues := @HC.gr_rnsbase_decompose_array_residues
 
 end HC.C10
